@@ -75,10 +75,16 @@ func vCrashRecord(cfg vCrashCfg) *vCrashHistory {
 		round()
 		h.inflight = []uint32{id - 1}
 	}
+	if cfg.InFlight == "flush2" {
+		// two frozen memtables flushed by one Flush(): two segments in flight
+		round()
+		round()
+		h.inflight = []uint32{id - 2, id - 1}
+	}
 	h.snap = env.fs.Snapshot()
 	start := len(env.fs.Log)
 	switch cfg.InFlight {
-	case "flush":
+	case "flush", "flush2":
 		env.do(func() { st.Flush() })
 	case "compact":
 		env.do(func() { st.TriggerCompaction(); vrt.Quiesce() })
@@ -231,8 +237,39 @@ func vCrashCheck(c *vCtx, cfg vCrashCfg, h *vCrashHistory, p vCrashPoint, prop s
 			}
 		}
 	}
+	// which segment does each in-flight document go to? (segments are written in order)
+	var inflightSegs []int
+	for _, op := range h.log {
+		if op.Kind == "create" && strings.Contains(op.Path, "/hybrid_") {
+			if m := vSegRe.FindStringSubmatch(op.Path); m != nil {
+				n, _ := strconv.Atoi(m[1])
+				inflightSegs = append(inflightSegs, n)
+			}
+		}
+	}
+	segComplete := func(seg int) bool {
+		tag := fmt.Sprintf("_%06d.", seg)
+		for i, op := range h.log {
+			if strings.Contains(op.Path, tag) && (op.Kind == "create" || op.Kind == "write") && i >= p.ops {
+				return false
+			}
+		}
+		return true
+	}
 	// in-flight documents: all or none; none while the segment is incomplete
-	for _, id := range h.inflight {
+	for di, id := range h.inflight {
+		if cfg.InFlight == "flush2" && di < len(inflightSegs) {
+			// on this tree every segment is written from the SHARED template objects, so an
+			// earlier complete in-flight segment legitimately holds the documents of the
+			// later memtable too (F12): the document may be visible as soon as ANY in-flight
+			// segment is complete
+			torn = true
+			for _, seg := range inflightSegs {
+				if segComplete(seg) {
+					torn = false
+				}
+			}
+		}
 		present, absent := 0, 0
 		for _, q := range vStoreQueries(cfg.Tmpl) {
 			if results[q] == nil || !vStoreMatches(vStoreDocs[h.ever[id]], q, cfg.Tmpl) {
@@ -454,7 +491,7 @@ func init() {
 	}
 	vRegister(&vCheck{
 		ID: "C10", Level: "fault_enumeration", Engine: "crashmc",
-		Rule:        "For every history (0..2 quick / 0..3 thorough completed Add;Rotate;Flush rounds, optionally one completed compaction; in-flight operation = flush of one more frozen memtable or a compaction; templates flat+bm25+metadata and flat only) the in-flight operation is run once over the logging in-memory file system; then EVERY crash image is materialised: every prefix of its file-system operation log x every byte prefix of the write in progress (comet never syncs and the fault model is process death, so these are exactly the possible images). For each image: stale LOCK removed, store reopened with fresh templates (must succeed), every probe query must succeed, every document made durable by an earlier completed flush must be found, no never-added id, documents of the in-flight memtable must not be visible while their segment is incomplete (and all-or-none afterwards), and Add;Rotate;Flush on the reopened store must create a segment identifier above every identifier occurring in any file name of the image. Non-trivial = distinct crash images strictly inside the in-flight operation.",
+		Rule:        "For every history (0..2 quick / 0..3 thorough completed Add;Rotate;Flush rounds, optionally one completed compaction; in-flight operation = flush of one or of two more frozen memtables, or a compaction; templates flat+bm25+metadata and flat only) the in-flight operation is run once over the logging in-memory file system; then EVERY crash image is materialised: every prefix of its file-system operation log x every byte prefix of the write in progress (comet never syncs and the fault model is process death, so these are exactly the possible images). For each image: stale LOCK removed, store reopened with fresh templates (must succeed), every probe query must succeed, every document made durable by an earlier completed flush must be found, no never-added id, documents of the in-flight memtable must not be visible while their segment is incomplete (and all-or-none afterwards), and Add;Rotate;Flush on the reopened store must create a segment identifier above every identifier occurring in any file name of the image. Non-trivial = distinct crash images strictly inside the in-flight operation.",
 		Assumptions: []string{"fault model: process death (what was handed to the OS survives); loss of unsynced pages on power failure is outside the statement", "in-memory file system trusted as a model of the POSIX subset comet uses"},
 		Shards: func(tier string) []vShard {
 			var sh []vShard
@@ -465,6 +502,9 @@ func init() {
 			for _, tm := range []string{"vtm", "v"} {
 				for r := 0; r <= maxR; r++ {
 					sh = append(sh, vCrashShard(vCrashCfg{Rounds: r, InFlight: "flush", Tmpl: tm}))
+					if r <= 1 {
+						sh = append(sh, vCrashShard(vCrashCfg{Rounds: r, InFlight: "flush2", Tmpl: tm}))
+					}
 					if r >= 2 {
 						sh = append(sh, vCrashShard(vCrashCfg{Rounds: r, InFlight: "compact", Tmpl: tm}))
 						sh = append(sh, vCrashShard(vCrashCfg{Rounds: r, Compact: true, InFlight: "flush", Tmpl: tm}))
